@@ -136,6 +136,8 @@ pub fn with_session_globals<R, F>(f: F) -> R
 where
     F: FnOnce(&mut SessionGlobals) -> R,
 {
+    #[cfg(mimium_verif)]
+    crate::verif_hooks::sched_point(crate::verif_hooks::SP_INTERNER);
     let external = EXTERNAL_SESSION_GLOBALS.load(Ordering::Acquire);
     let mutex: &Mutex<SessionGlobals> = if !external.is_null() {
         // SAFETY: set_external_session_globals guarantees the pointer is valid.
